@@ -1,0 +1,39 @@
+//go:build verif && !js
+
+package websocket
+
+import (
+	"reflect"
+	"sync/atomic"
+)
+
+// VerifEventFunc receives (connection, kind, identity of the object involved). It is called
+// synchronously at the hook sites; the harness installs it with VerifSetEventHook.
+type VerifEventFunc func(c *Conn, kind string, obj uintptr)
+
+var verifHook atomic.Value // of VerifEventFunc
+
+// VerifSetEventHook installs (or, with nil, removes) the event hook.
+func VerifSetEventHook(f VerifEventFunc) {
+	if f == nil {
+		verifHook.Store(VerifEventFunc(func(*Conn, string, uintptr) {}))
+		return
+	}
+	verifHook.Store(f)
+}
+
+func verifEvent(c *Conn, kind string, obj interface{}) {
+	f, _ := verifHook.Load().(VerifEventFunc)
+	if f == nil {
+		return
+	}
+	var id uintptr
+	if obj != nil {
+		v := reflect.ValueOf(obj)
+		switch v.Kind() {
+		case reflect.Ptr, reflect.Chan, reflect.Map, reflect.Func, reflect.Slice, reflect.UnsafePointer:
+			id = v.Pointer()
+		}
+	}
+	f(c, kind, id)
+}
